@@ -382,6 +382,22 @@ with worker_pool(queue, process_node, worker_count):
         for _ in range(worker_count):
             queue.put(DONE)
 ''')
+    # between `assert_acyclic` and the coordinator block there is nothing but initialisations and `def process_node`: no early
+    # return, no alternative path that runs the graph some other way (an inline runner for one worker, ...)
+    mid = body[1:-2]
+    flags["onlyInitBeforeCoordinator"] = (
+        len(body) >= 4 and all(isinstance(x, ast.Assign) or x is pn for x in mid) and sum(x is pn for x in mid) == 1
+        and not any(isinstance(n, (ast.Return, ast.Yield, ast.YieldFrom)) for x in mid if x is not pn for n in ast.walk(x)))
+    cw = _find_func(tree, "coerce_worker_count", F)
+    flags["coerceWorkerCountShape"] = _same(cw, '''
+def coerce_worker_count(worker_count):
+    if worker_count is None:
+        worker_count = min(32, (os.cpu_count() or 1) + 4)
+    worker_count = int(worker_count)
+    if worker_count < 1:
+        raise ValueError("worker_count must be at least 1.")
+    return worker_count
+''')
     flags["raisesFirstError"] = _same(body[-1], "if first_node_error:\n    raise first_node_error")
     flags["coordinatorIsLastButOne"] = len(body) >= 2 and isinstance(body[-2], ast.With)
     # initial state
